@@ -425,9 +425,20 @@ pub fn reads(n: usize) -> Vec<Step> {
 /// Errors are skipped (a fatal one is followed by Eof). Returns the bytes written,
 /// or None when the code under test panicked.
 pub fn read_write(input: &[u8], cfg: &CfgBits, plan: Option<&Plan>) -> Option<Vec<u8>> {
+    // the sink is part of the environment: one that takes everything, one that takes a byte per call, one that takes three
+    let whole = read_write_into(input, cfg, plan, usize::MAX)?;
+    for max in [1usize, 3] {
+        let short = read_write_into(input, cfg, plan, max)?;
+        if short != whole {
+            return Some(short);
+        }
+    }
+    Some(whole)
+}
+
+fn read_write_into(input: &[u8], cfg: &CfgBits, plan: Option<&Plan>, max: usize) -> Option<Vec<u8>> {
     let r = catch_unwind(AssertUnwindSafe(|| {
-        let mut out = Vec::new();
-        let mut w = quick_xml::Writer::new(&mut out);
+        let mut w = quick_xml::Writer::new(crate::env::ShortSink::new(max));
         let bound = input.len() + 5;
         match plan {
             None => {
@@ -455,7 +466,7 @@ pub fn read_write(input: &[u8], cfg: &CfgBits, plan: Option<&Plan>) -> Option<Ve
                 }
             }
         }
-        out
+        w.into_inner().out
     }));
     r.ok()
 }
